@@ -379,6 +379,60 @@ func genVarBinding(repo string) (string, error) {
 	if err != nil {
 		return "", err
 	}
+	// the order of the three lookups: the statements of nonLocalVarIndex after the name switch are
+	// [ti := …; currFn := …; currPkg := …; <three ifs in some order>; return 0, false]
+	{
+		body := nl.Body.List
+		start := -1
+		for i, st := range body {
+			if vs.src(st) == "currPkg := vs.emitter.pkg" {
+				start = i + 1
+			}
+		}
+		if start < 0 || len(body) != start+4 || vs.src(body[len(body)-1]) != "return 0, false" {
+			return "", vs.errf(nl.Body, "nonLocalVarIndex is not [… currPkg := vs.emitter.pkg; three lookups; return 0, false]")
+		}
+		var order []string
+		for _, st := range body[start : start+3] {
+			is, ok := st.(*ast.IfStmt)
+			if !ok || is.Else != nil {
+				return "", vs.errf(st, "lookup of nonLocalVarIndex is not a plain if")
+			}
+			switch {
+			case is.Init == nil && vs.src(is.Cond) == "ti != nil && ti.IsNative()" &&
+				vs.src(is.Body) == "{ index := vs.predefVarIndex(ti.value.(*reflect.Value), ti.Type, ti.NativePackageName, name) return int(index), true }":
+				order = append(order, ".predefined")
+			case is.Init != nil && vs.src(is.Init) == "index, ok := vs.closureVars[currFn][fullName]" && vs.src(is.Cond) == "ok" && vs.src(is.Body) == "{ return int(index), true }":
+				order = append(order, ".closureVars")
+			case is.Init != nil && vs.src(is.Init) == "index, ok := vs.scriggoPackageVarRefs[currPkg][fullName]" && vs.src(is.Cond) == "ok" && vs.src(is.Body) == "{ return int(index), true }":
+				order = append(order, ".packageVars")
+			default:
+				return "", vs.errf(st, "lookup of nonLocalVarIndex is none of predefined / closureVars / scriggoPackageVarRefs")
+			}
+		}
+		seen := map[string]bool{}
+		for _, o := range order {
+			seen[o] = true
+		}
+		if len(seen) != 3 {
+			return "", vs.errf(nl.Body, "the three lookups of nonLocalVarIndex are not distinct")
+		}
+		fmt.Fprintf(&b, "/-- emitter_var_store.go, nonLocalVarIndex: the order in which a non-local name is looked up -/\ninductive Lookup\n  | predefined    -- `ti.IsNative()`: what the checker resolved to a native (global) variable\n  | closureVars   -- by name among the captured variables of the current function\n  | packageVars   -- by name among the package-level variables bound in the current package\n  deriving DecidableEq, Repr\ndef lookupOrder : List Lookup := [%s]\n\n", strings.Join(order, ", "))
+	}
+	// bindScriggoPackageVar binds imported package variables by name, whatever their case
+	ems, err := vbParse(filepath.Join(repo, "internal/compiler/emitter_statements.go"))
+	if err != nil {
+		return "", err
+	}
+	ei, err := ems.fn("emitter", "emitImport")
+	if err != nil {
+		return "", err
+	}
+	if _, err := vbOne(ems, ei, "for name, v := range vars { … bindScriggoPackageVar(targetPkg, name, v) }", func(r *ast.RangeStmt) bool {
+		return ems.src(r.X) == "vars" && strings.HasSuffix(ems.src(r.Body), "em.varStore.bindScriggoPackageVar(targetPkg, name, v) }")
+	}); err != nil {
+		return "", err
+	}
 	fmt.Fprintf(&b, "/-- emitter_var_store.go, nonLocalVarIndex: package passed to predefVarIndex -/\ndef usePkgSource : NameSource := %s\n", usePkg)
 	fmt.Fprintf(&b, "/-- …: name passed to predefVarIndex -/\ndef useNameSource : NameSource := %s\n\n", useName)
 	pv, err := vs.fn("varStore", "predefVarIndex")
